@@ -133,15 +133,16 @@ Definition FMT : list str :=
 Definition SYM : list str :=
   [[97;108;112;104;97]; [98;101;116;97]; [71;97;109;109;97]; [105;110;102;116;121]; [116;105;109;101;115];
    [108;100;111;116;115]; [83]; [97;101]; [76;97;84;101;88]; [122;122;117;110;107;110;111;119;110];
-   [99;100;111;116]; [116;111]]%N.
-   (* alpha beta Gamma infty times ldots S ae LaTeX zzunknown cdot to *)
+   [99;100;111;116]; [116;111]; [112;104;105]; [101;108;108]; [101;112;115;105;108;111;110]]%N.
+   (* alpha beta Gamma infty times ldots S ae LaTeX zzunknown cdot to phi ell epsilon *)
 Definition SPC : list str := [[126]; [45;45]; [45;45;45]; [96;96]; [39;39]; [38]]%N.   (* ~ -- --- `` '' & *)
 Definition ENV : list str :=
   [[105;116;101;109;105;122;101]; [101;110;117;109;101;114;97;116;101];
    [122;122;117;110;107;110;111;119;110;101;110;118]]%N.                          (* itemize enumerate zzunknownenv *)
 
-Definition ACC : list str := [[39]; [96]; [34]; [94]; [126]; [99]; [118]; [104;97;116]; [98;97;114]; [118;101;99]]%N.
-   (* the accent macros: acute, grave, dieresis (double quote), circumflex, tilde, c, v, hat, bar, vec *)
+Definition ACC : list str :=
+  [[39]; [96]; [34]; [94]; [126]; [99]; [118]; [104;97;116]; [98;97;114]; [118;101;99]; [100;111;116]; [116;105;108;100;101]]%N.
+   (* the accent macros: acute, grave, dieresis (double quote), circumflex, tilde, c, v, hat, bar, vec, dot, tilde *)
 
 Definition is_some {A} (x : option A) : bool := match x with Some _ => true | None => false end.
 
